@@ -94,13 +94,32 @@ TEnd ==
            /\ Become(S)
     /\ UNCHANGED <<cfg, now>>
 
+\* the same without a directory listing (long histories)
+TEndQ ==
+    /\ IsEvent("EndQ")
+    /\ LET S == SettleObs(Here, Lab("return", NONE, NONE, ""))
+       IN  AtRest(S) /\ Become(S)
+    /\ UNCHANGED <<cfg, now>>
+
+\* Qt aborted the process after the message handler had returned from a FATAL message (C11): the sink is at
+\* rest, holds nothing back, and the files are the spec's
+TFatal ==
+    /\ IsEvent("Fatal")
+    /\ sk.alive
+    /\ LET S == SettleObs(Here, Lab("return", NONE, NONE, ""))
+       IN  /\ AtRest(S)
+           /\ FatalDurable(S)
+           /\ MatchDir(S.dir, ev.files)
+           /\ dir' = S.dir /\ g' = [S.g EXCEPT !.crashed = TRUE] /\ sk' = Dead
+    /\ UNCHANGED <<cfg, now>>
+
 \* the process was killed right before its next libc call
 TCrash ==
     /\ IsEvent("Crash")
     /\ MatchDir(dir, ev.files)
     /\ Crash
 
-TNext == TReset \/ TNow \/ TBegin \/ TSys \/ TEnd \/ TCrash
+TNext == TReset \/ TNow \/ TBegin \/ TSys \/ TEnd \/ TEndQ \/ TFatal \/ TCrash
 
 \* the action properties of QtlRotation, not applied to the step that starts the next recorded execution
 ResetStep == l <= Len(TraceLog) /\ TraceLog[l].e = "Reset"
